@@ -430,8 +430,28 @@ theorem castInputs_sim (S : Sem V) (fuel : Nat) {sig : Sig} {as : List Name} {pv
 
 /-! ## Expressions -/
 
-/-- No Python name is bound to an attribute parameter (functions without attribute parameters). -/
-def NoAttrBind (L : Locals) : Prop := ∀ x p ty, lookup L x ≠ some (.attr p ty)
+/-- The attribute bindings in scope are the identity bindings of attribute parameters (`alpha ↦ AttrRef alpha`).
+That is all the refinement theorems assume about attribute parameters: they may be passed on as keyword arguments
+(`alpha=alpha`); read as *values* they have no meaning in the plain-Python semantics of the model, and they must
+not be re-assigned (`FreeOf`). -/
+def NoAttrBind (L : Locals) : Prop := ∀ x p ty, lookup L x = some (.attr p ty) → p = x
+
+/-- None of the names `ts` (the names a statement may bind) is bound to an attribute in `L`: an attribute
+parameter that is re-assigned inside a branch or a loop would be exported as a castable `Constant` (C01-D24). -/
+def FreeOf (L : Locals) (ts : List Name) : Prop := ∀ x, x ∈ ts → ∀ p ty, lookup L x ≠ some (.attr p ty)
+
+/-- `L'` has no attribute binding that `L` does not have (translation only ever adds value bindings). -/
+def AttrMono (L L' : Locals) : Prop := ∀ x p ty, lookup L' x = some (.attr p ty) → lookup L x = some (.attr p ty)
+
+theorem AttrMono.refl (L : Locals) : AttrMono L L := fun _ _ _ h => h
+theorem AttrMono.trans {a b c : Locals} (h1 : AttrMono a b) (h2 : AttrMono b c) : AttrMono a c :=
+  fun x p ty h => h1 x p ty (h2 x p ty h)
+
+theorem FreeOf.mono {L L' : Locals} {ts : List Name} (h : FreeOf L ts) (m : AttrMono L L') : FreeOf L' ts :=
+  fun x hx p ty hl => h x hx p ty (m x p ty hl)
+
+theorem FreeOf.sub {L : Locals} {ts ts' : List Name} (h : FreeOf L ts) (hs : ∀ x, x ∈ ts' → x ∈ ts) : FreeOf L ts' :=
+  fun x hx => h x (hs x hx)
 
 theorem convAttrs_id {L : Locals} (hL : NoAttrBind L) : ∀ (attrs attrs' : List (String × AttrV)),
     convAttrs L attrs = .ok attrs' → attrs' = attrs := by
@@ -457,7 +477,16 @@ theorem convAttrs_id {L : Locals} (hL : NoAttrBind L) : ∀ (attrs attrs' : List
       | some b =>
         cases b with
         | val n => simp [hl] at h
-        | attr q ty => exact absurd hl (hL p q ty)
+        | attr q ty =>
+          have hq : q = p := hL p q ty hl
+          subst hq
+          simp only [hl] at h
+          cases hr : convAttrs L rest with
+          | error e => simp [hr, bind, Except.bind] at h
+          | ok rs =>
+            simp [hr, bind, Except.bind] at h
+            cases h
+            rw [ih rs hr]
 
 /-- Conclusion of the expression simulation. -/
 def ExprSim (S : Sem V) (fuel : Nat) (env : Env V) (s s' : St) (x : Name) (ns : List Node) (pv : PV V) : Prop :=
@@ -867,6 +896,25 @@ theorem NoAttrBind.bindVals {L : Locals} (h : NoAttrBind L) : ∀ (xs ns : List 
     | nil => exact h
     | cons n ns => exact ih (h.bindVal x n) ns
 
+theorem AttrMono.bindVal (L : Locals) (x n : Name) : AttrMono L (bindVar L x (.val n)) := by
+  intro y p ty hl
+  by_cases hy : y = x
+  · subst hy
+    rw [lookup_bindVar_same] at hl
+    cases hl
+  · rw [lookup_bindVar_ne hy] at hl
+    exact hl
+
+theorem AttrMono.bindVals : ∀ (xs ns : List Name) (L : Locals), AttrMono L (OV.C01.bindVals L xs ns) := by
+  intro xs
+  induction xs with
+  | nil => intro ns L; cases ns <;> exact AttrMono.refl L
+  | cons x xs ih =>
+    intro ns L
+    cases ns with
+    | nil => exact AttrMono.refl L
+    | cons n ns => exact (AttrMono.bindVal L x n).trans (ih ns _)
+
 theorem all2_length {α β : Type} {R : α → β → Prop} {as : List α} {bs : List β} (h : All2 R as bs) :
     as.length = bs.length := by
   induction h with
@@ -1275,6 +1323,47 @@ theorem noAttrBind_params {ps : List Param} (h : AllTensorParams ps) : NoAttrBin
   obtain ⟨n, hn⟩ := paramFrame_vals ps h _ hm
   cases hn
 
+theorem paramFrame_attr_ident : ∀ (ps : List Param) (k p : Name) (ty : AttrTy),
+    (k, Bind.attr p ty) ∈ paramFrame ps → p = k ∧ k ∈ attrParams ps := by
+  intro ps
+  induction ps with
+  | nil => intro k p ty h; simp [paramFrame] at h
+  | cons q ps ih =>
+    intro k p ty h
+    cases q with
+    | tensor y =>
+      simp only [paramFrame, List.mem_append, List.mem_singleton] at h
+      rcases h with h | h
+      · obtain ⟨h1, h2⟩ := ih k p ty h
+        exact ⟨h1, by simpa [attrParams] using h2⟩
+      · cases h
+    | attr y ty' =>
+      simp only [paramFrame, List.mem_append, List.mem_singleton] at h
+      rcases h with h | h
+      · obtain ⟨h1, h2⟩ := ih k p ty h
+        refine ⟨h1, ?_⟩
+        simp [attrParams] at h2 ⊢
+        exact Or.inr h2
+      · cases h
+        exact ⟨rfl, by simp [attrParams]⟩
+
+/-- Whatever the parameters, the parameter frame binds attribute parameters to themselves. -/
+theorem noAttrBind_paramFrame (ps : List Param) : NoAttrBind [paramFrame ps] := by
+  intro x p ty hl
+  obtain ⟨fr, hfr, hm⟩ := lookup_mem hl
+  simp only [List.mem_singleton] at hfr
+  subst hfr
+  exact (paramFrame_attr_ident ps x p ty hm).1
+
+/-- Attribute parameters that the body never binds are free in the parameter frame. -/
+theorem freeOf_paramFrame (ps : List Param) (ts : List Name)
+    (h : ∀ p, p ∈ attrParams ps → p ∉ ts) : FreeOf [paramFrame ps] ts := by
+  intro x hx p ty hl
+  obtain ⟨fr, hfr, hm⟩ := lookup_mem hl
+  simp only [List.mem_singleton] at hfr
+  subst hfr
+  exact h x (paramFrame_attr_ident ps x p ty hm).2 hx
+
 theorem setMany_rel : ∀ (xs : List Name) (vs : List V) (ρb : Store V) (eb : Env V),
     (∀ x, ρb x = (eb x).map PV.t) →
     ∀ x, (Store.setMany ρb xs (vs.map PV.t)) x = ((Env.setMany eb xs vs) x).map PV.t := by
@@ -1315,7 +1404,7 @@ theorem setMany_dom : ∀ (xs : List Name) (vs : List V) (eb : Env V) (x : Name)
 /-- **Refinement for straight-line functions.** -/
 theorem convert_correct_sl (S : Sem V) (hConst : ∀ l, ∃ c, constOf S l = some c)
     (hId : ∀ v, S.op "" "Identity" [some v] [] = some [v]) {f : Func} {g : Graph}
-    (hsl : straightLine f.body = true) (hten : AllTensorParams f.params)
+    (hsl : straightLine f.body = true)
     (hnames : (f.params.map Param.name).Nodup) (h : convert f = .ok g)
     {fuel : Nat} {args vs : List V} (he : evalFunc S fuel f args = some vs) :
     evalGraph S fuel g args = some vs := by
@@ -1367,7 +1456,7 @@ theorem convert_correct_sl (S : Sem V) (hConst : ∀ l, ∃ c, constOf S l = som
                 simp only [lookup]
                 rw [paramFrame_find _ x hnames hmem]
             obtain ⟨env', ev, hm⟩ := convTop_sl_sim S fuel hConst hId f.body [paramFrame f.params] hsl
-              (noAttrBind_params hten) hL hR (fun n hn => by cases hn) hb he hc
+              (noAttrBind_paramFrame _) hL hR (fun n hn => by cases hn) hb he hc
             unfold evalGraph
             simp only [hlen, if_true, ev]
             exact hm
